@@ -26,7 +26,9 @@ PROPS = {
         suites=[("values", {Q: 600, T: 60000})],
         rule="values suite: exhaustive insert/get sequences over 3 names x 3 values up to length 3 (quick) / 4 "
              "(thorough), random operation sequences (insert/get/extend/collect/JSON text/serde MapDeserializer with exact size hint/"
-             "iterators) up to 25/60 ops, typed comparisons on boundary-biased values incl. neighbouring bit patterns, signed zeros "
+             "iterators with every positional adapter: nth, nth_back, rev().nth, rev().skip, last, len/size_hint/count, both ends; "
+             "indexing vs get) up to 25/60 ops, strings that end in line breaks, error chains of up to 40 entries, NaNs with sign / "
+             "payload / signalling bit, typed comparisons on boundary-biased values incl. neighbouring bit patterns, signed zeros "
              "and NaNs; non-trivial = sequence that re-inserts an existing name "
              "and has >= 3 lines; distinct by input text",
         assumptions=["serde_json text layer (the `v json` op builds the document text itself and feeds it to the real deserializer)"],
@@ -88,8 +90,9 @@ _RECV_RULE = ("receiver suite: streams from a guest simulator (announcements inc
               "smaller, far away or recycled after death; nested / re-entrant / non-LIFO enters, overlapping enters before "
               "quiescent cuts, clones, drops, records with fields in stored, reversed or permuted order, follows-from, events; "
               "call sites with up to 130 fields), invalid events mixed in (unknown call sites, dead spans, 33..40 values), history "
-              "operations persist keep|lose|losenew|cold (cold = descriptions new to the process, receiver built before the host "
-              "is installed) and discard at random positions (every second receiver drop happens while its thread unwinds), "
+              "operations persist keep|lose|losenew|cold|stale (cold = descriptions new to the process, receiver built before the host "
+              "is installed; stale = what was persisted is lost and the next receiver starts from the previous state with the current "
+              "local map; every other restore decodes the span state from a reader) and discard at random positions (every second receiver drop happens while its thread unwinds), "
               "retry-after-discard shapes, wide call sites with 33..130 accumulated values across a restart; exhaustive sequences "
               "over a 15-symbol alphabet up to length 3 (quick) / 5 (thorough). ")
 for _p in ["C02", "C03", "C04", "C06", "C07", "C08"]:
@@ -180,12 +183,17 @@ MANIFEST_TEXT["C08"] = dict(
          "host: every span id passed to the host was issued by it earlier and not yet closed, nothing is closed twice (C08_id_discipline, "
          "C08_never_closes_twice); the drop of the last handle closes exactly loc[g] and removes the entry, other drops are silent; with "
          "the map preserved a run that ends with no alive guest span has an empty local map and every issued host span closed "
-         "(C08_complete_run). Correspondence on a strict recording subscriber that flags any misuse.",
+         "(C08_complete_run); at every state of such a history the open host spans are exactly the range of the map "
+         "(C08_open_spans_are_the_mapped_ones). The id discipline and the no-leak invariant are also proved for histories with stale "
+         "restores - a receiver built from span state that does not belong to the local map it is given (C08_id_discipline_stale, "
+         "C08_no_leak_stale). Correspondence on a strict recording subscriber that flags any misuse; histories include `h persist stale` "
+         "(what a receiver persisted is lost, the next one starts from the previous state with the current map).",
     note=_RECV_NOTE, technique="Lean 4 proof (id-discipline invariant over histories) + differential correspondence + strict-subscriber oracle")
 
 _CAP_RULE = ("capture suite: well-formed single-threaded programs (as C01) driven directly into Registry + capture layer(s); layer "
              "filters from {none, level threshold, name predicate, target-prefix predicate}, optional global LevelFilter layer, "
-             "pass-through layers in every position, 1..3 capture layers, stale follows-from targets; the whole storage is dumped "
+             "pass-through layers in every position, 1..3 capture layers, stale follows-from targets, one case in sixty a chain of "
+             "129..170 nested spans; the whole storage is dumped "
              "through the public query API and every C17 law is cross-checked on it, including equality / order of handles at every pair of "
              "positions within a storage and against a second storage (another layer's, or a second run's); for C16 one case in three "
              "applies the filters through tracing-subscriber's per-layer filtering (Layer::with_filter) next to an unfiltered layer "
@@ -214,7 +222,8 @@ _PROG_RULE = ("prog suite: well-formed single-threaded guest programs at subscri
               "mostly in declaration order, sometimes permuted or naming a field more than once (public value_set API); nested, re-entrant and "
               "non-LIFO enters; clones, drops, follows-from, records, events, repeated registrations), exhaustive programs over an "
               "11-symbol alphabet up to length 4 (quick) / 6 (thorough) and random programs up to 40 / 200 ops; each is run natively on a "
-              "StrictHost, under the real TracingEventSender, and tunnelled (sender -> serde_json -> receiver -> StrictHost); "
+              "StrictHost, under the real TracingEventSender, and tunnelled (sender -> serde_json -> receiver -> StrictHost; one program in "
+              "six is tunnelled without serialization and then records NaN and the infinities too); "
               "non-trivial = >= 2 spans, >= 1 enter, >= 1 event or record and one of {explicit parent, clone, follows-from}; distinct by input text")
 PROPS["C12"] = dict(suites=[("prog", {Q: 400, T: 30000})], rule=_PROG_RULE + "; plus 2..16 threads x 5..200 span creations through one shared sender, and the span-id counter preset near 2^32 through the cfg hook")
 MANIFEST_TEXT["C12"] = dict(
@@ -300,12 +309,15 @@ MANIFEST_TEXT["C17"] = dict(
     note=_CAP_NOTE + "Cross-storage comparisons (ptr::eq on the storage) are checked by the harness only.",
     technique="Lean 4 proof (invariant preservation; fuel-independence and traversal lemmas) + differential correspondence + law cross-checks on the real API")
 
-PROPS["C18"] = dict(suites=[("pred", {Q: 150, T: 4000})],
+PROPS["C18"] = dict(suites=[("pred", {Q: 600, T: 6000})],
     rule="pred suite: storages from generated programs (single capture layer, no filter; site names / targets / field values aligned with "
          "the predicate atoms); predicate instances are compiled into the harness from a generated table (types are static in Rust): "
-         "32 atoms per side (level exact / LevelFilter incl. OFF, target path / custom, name, field with typed constants of every kind "
-         "and value(..) views, message, parent, ancestor) + all `&` / `|` combinations over a 15-atom core (depth 2) + 60 sampled depth-3 "
-         "combinations = 603 span and 603 event predicates; targets include near misses of the `::` rule (`app:db`, `app:`, `my_app` vs "
+         "47 atoms per side (level exact / LevelFilter incl. OFF, ERROR, TRACE; target path / custom; name incl. raw identifiers; field "
+         "with typed constants of every kind incl. 0.0 / -0.0 / NaN and value(..) views, fields named `r#type` / `type`; message incl. "
+         "messages that are error values; parent, ancestor, parent(ancestor)) + all `&` / `|` combinations over a 16-atom core (depth 2) "
+         "+ 160 sampled depth-3 combinations with the compound operand on either side of either operator, with and without redundant "
+         "parentheses (`a & b | c`) = 718 span and 717 event predicates, every third query picks a plain atom; targets include near "
+         "misses of the `::` rule (`app:db`, `app:`, `my_app` vs "
          "`my-app`), items with a string field `log.target`, 128-bit values congruent to the typed constants modulo 2^64; every query evaluates eval, find_case(true), find_case(false); scanner "
          "helpers single/first/last/all/none over all spans/events, children, events, descendants, deep events under catch_unwind; "
          "non-trivial = >= 10 predicate queries on existing items of a storage with >= 2 spans; distinct by input text")
@@ -315,7 +327,7 @@ MANIFEST_TEXT["C18"] = dict(
          "predicates separately); reference meaning of each factory: target = path or below it at a `::` boundary; level exact / "
          "threshold / OFF matches nothing; field present and matching with strict value kinds; message; direct parent; any ancestor; "
          "and / or; scanner helpers are determined by the list of matching items (single <-> exactly one, first/last = head/last of the "
-         "matches, all, none). Model eval/hasCase mirror the code arm by arm and are tied to it by 1202 compiled predicate instances "
+         "matches, all, none). Model eval/hasCase mirror the code arm by arm and are tied to it by 1435 compiled predicate instances "
          "evaluated on real storages.",
     note=_CAP_NOTE + "Leaf predicates of the `predicates` crate (eq, lt/gt, str::starts_with) are assumed to satisfy find_case(e,x).is_some() <-> eval(x)=e; the harness checks this for every atom it uses.",
     technique="Lean 4 proof (structural induction over predicates) + differential correspondence on compiled predicate instances")
@@ -509,3 +521,4 @@ MANIFEST_TEXT["C19"] = dict(
 PROPS["C02"]["extra_modules"] = ["TT.Props.C02Quiescence", "TT.Props.C02GuestLevel"]
 PROPS["C01"]["extra_modules"] = ["TT.Props.C01General"]
 PROPS["C19"]["extra_modules"] = ["TT.Props.C19NoLostUpdate"]
+PROPS["C08"]["extra_modules"] = ["TT.Props.C08Stale"]
